@@ -6,6 +6,7 @@ import Ptn.C19.Model
 * `starInit`, `starAdd`  ↔ `StarTreeTensorNetwork.add_center_node`, `add_chain_node` / `_add_chain`
                            (`parent_leg=None`: first open leg of the parent) (`special_ttn/star.py`)
 * `starConstCalls`, `starConst` ↔ `StarTreeTensorState.constant_product_state`
+* `attachAt`, `starAddL`, `forkAddL` ↔ the same three methods with their optional argument `parent_leg`
 * `forkAdd`              ↔ `ForkTreeTensorNetwork.add_main_chain_node`, `add_sub_chain_node` (`fttn.py`)
 * `ftpsCalls`, `ftps`    ↔ `constant_ftps`
 * `binLoop`, `binAddAll`, `binReplace`, `binGenerate` ↔ `add_all_nodes` (queue of `HelperNode`s),
@@ -223,5 +224,69 @@ def binGenerate (nphys bd d : Nat) : Option (List (GNode BinId)) :=
           match queue[k]? with
           | none => none
           | some lp => binReplace ns (.phys k) (.virt lp.1 lp.2) [bd, d]) (some nodes)
+
+/-! ## Explicit `parent_leg` (optional argument of `add_chain_node`, `add_main_chain_node`, `add_sub_chain_node`) -/
+
+/-- `if parent_leg is None: parent_leg = parent_node.nvirt_legs()` followed by
+    `add_child_to_parent(node, tensor, 0, parent_id, parent_leg)`: what star and fork do with their optional
+    argument `parent_leg` (the new node always offers its leg 0) -/
+def attachAt {ι : Type} [DecidableEq ι] (nodes : List (GNode ι)) (cid : ι) (shape : List Nat)
+    (pid : ι) (pl : Option Nat) : Option (List (GNode ι)) :=
+  match gFind nodes pid with
+  | none => none
+  | some p => gAddChild nodes cid shape 0 pid (pl.getD p.nvirt)
+
+/-- one call `add_chain_node(tensor, chain_index, parent_leg)`: chain index, shape, `parent_leg` (`none` = `None`) -/
+abbrev StarCallL := Nat × List Nat × Option Nat
+
+/-- `add_chain_node(tensor, chain_index, parent_leg)` (`_add_chain` for a new chain) -/
+def starAddL (st : Star) (c : Nat) (shape : List Nat) (pl : Option Nat) : Option Star :=
+  match gFind st.nodes .center with
+  | none => none
+  | some ctr =>
+    if ctr.legs.length < c then none            -- "Chain index is too high!"
+    else if st.lens.length < c then none        -- "This is not the next chain index!"
+    else if c = st.lens.length then
+      (attachAt st.nodes (.chain c 0) shape .center pl).map fun ns => ⟨ns, st.lens ++ [1]⟩
+    else
+      match st.lens[c]? with
+      | none => none
+      | some len =>
+        (attachAt st.nodes (.chain c len) shape (.chain c (len - 1)) pl).map
+          fun ns => ⟨ns, st.lens.set c (len + 1)⟩
+
+def starRunFromL (st : Star) (calls : List StarCallL) : Option Star :=
+  calls.foldl (fun acc x => acc.bind fun s => starAddL s x.1 x.2.1 x.2.2) (some st)
+
+def starRunL (cshape : List Nat) (calls : List StarCallL) : Option Star :=
+  starRunFromL (starInit cshape) calls
+
+inductive ForkCallL where
+  | main (shape : List Nat) (pl : Option Nat)
+  | sub (i : Nat) (shape : List Nat) (pl : Option Nat)
+deriving Repr, DecidableEq
+
+/-- `add_main_chain_node(tensor, parent_leg)` (the argument is not looked at for the very first node, which
+    becomes the root) and `add_sub_chain_node(tensor, subchain_index, parent_leg)` -/
+def forkAddL (st : Fork) : ForkCallL → Option Fork
+  | .main shape pl =>
+    let m := st.subLens.length
+    if m = 0 then
+      (if st.nodes.isEmpty then some ⟨[rootNode (.main 0) shape], [0]⟩ else none)
+    else
+      (attachAt st.nodes (.main m) shape (.main (m - 1)) pl).map fun ns => ⟨ns, st.subLens ++ [0]⟩
+  | .sub i shape pl =>
+    if st.subLens.length < i then none          -- "A subchain has to be attached to the main chain!"
+    else
+      match st.subLens[i]? with
+      | none => none                            -- IndexError of `self.sub_chains[index]`
+      | some len =>
+        let pid : ForkId := if len = 0 then .main i else .sub i (len - 1)
+        (attachAt st.nodes (.sub i len) shape pid pl).map fun ns => ⟨ns, st.subLens.set i (len + 1)⟩
+
+def forkRunFromL (st : Fork) (calls : List ForkCallL) : Option Fork :=
+  calls.foldl (fun acc x => acc.bind fun s => forkAddL s x) (some st)
+
+def forkRunL (calls : List ForkCallL) : Option Fork := forkRunFromL forkInit calls
 
 end Ptn.C19
